@@ -28,3 +28,30 @@ pub open spec fn ext_wf(s: Seq<Extent>) -> bool { forall|i: int| 0 <= i < s.len(
 pub open spec fn inx(e: Extent, b: int) -> bool { e.start <= b < e.end }
 pub open spec fn covered(s: Seq<Extent>, b: int) -> bool { exists|i: int| 0 <= i < s.len() && inx(#[trigger] s[i], b) }
 pub open spec fn optseq(p: Option<Extent>) -> Seq<Extent> { match p { Some(e) => seq![e], None => seq![] } }
+
+// ---- libfs::FileType (mirror of the enum in libfs/src/lib.rs)
+pub enum FileType { File, Dir, Symlink, Socket, Fifo, Char, Block, Other }
+impl FileType {
+    pub open spec fn kind(&self) -> NodeKind {
+        match self {
+            FileType::File => NodeKind::File, FileType::Dir => NodeKind::Dir, FileType::Symlink => NodeKind::Symlink,
+            FileType::Socket => NodeKind::Socket, FileType::Fifo => NodeKind::Fifo, FileType::Char => NodeKind::Char,
+            FileType::Block => NodeKind::Block, FileType::Other => NodeKind::Other,
+        }
+    }
+}
+// the conversions' *bodies* are extracted from lib.rs and verified against these spec functions
+impl vstd::std_specs::convert::FromSpecImpl<fs::FileType> for FileType {
+    open spec fn obeys_from_spec() -> bool { true }
+    open spec fn from_spec(ft: fs::FileType) -> FileType {
+        match ft.kind() {
+            NodeKind::File => FileType::File, NodeKind::Dir => FileType::Dir, NodeKind::Symlink => FileType::Symlink,
+            NodeKind::Socket => FileType::Socket, NodeKind::Fifo => FileType::Fifo, NodeKind::Char => FileType::Char,
+            NodeKind::Block => FileType::Block, NodeKind::Other => FileType::Other,
+        }
+    }
+}
+impl vstd::std_specs::convert::FromSpecImpl<Extent> for Range<u64> {
+    open spec fn obeys_from_spec() -> bool { true }
+    open spec fn from_spec(e: Extent) -> Range<u64> { Range { start: e.start, end: e.end } }
+}
